@@ -19,4 +19,4 @@ for id in "$@"; do
 done
 rm -rf $E
 git -C /repo worktree remove --force $W
-rm -f /verif/replays/*.json
+[ -n "$KEEP_REPLAYS" ] || rm -f /verif/replays/*.json
